@@ -347,7 +347,7 @@ def main(argv):
             mod.selftest(ctx, fx)
         if ctx.fixture_controls['failed'] or ctx.fixture_controls['total'] < 30:
             raise CheckBroken('selftest: fixture controls misbehave: %s' % ctx.fixture_controls)
-        mod.run(ctx)
+        run_module(mod, ctx)
         extra = None
         if tier == 'thorough' and hasattr(mod, 'thorough'):
             extra = mod.thorough(ctx)
@@ -407,6 +407,31 @@ def main(argv):
         print('CHECK-BROKEN thorough self-test: mutants not detected: %s' % extra['mutants_broken'])
         return 2 if rc == 0 else rc
     return rc
+
+
+def run_module(mod, ctx):
+    """evaluate a rule module; a rule function that raises on an unexpected code shape does not abort the run and is
+    not silent either: it is reported as a violation of that rule letter (fail closed), the other rules still run"""
+    import functools
+    for name in dir(mod):
+        f = getattr(mod, name)
+        if name.startswith('rule_') and callable(f) and not getattr(f, '_qv_wrapped', False):
+            def mk(f, name):
+                @functools.wraps(f)
+                def w(c, *a, **kw):
+                    try:
+                        return f(c, *a, **kw)
+                    except CheckBroken:
+                        raise
+                    except Exception as e:
+                        tb = traceback.extract_tb(e.__traceback__)
+                        loc = '%s:%d' % (os.path.basename(tb[-1].filename), tb[-1].lineno) if tb else '?'
+                        c.bad(name[5:], 'rule_could_not_be_evaluated', 'rules.%s.%s' % (c.pid, name), '',
+                              'the code has a shape this rule does not understand (%s: %s at %s): it can no longer establish its obligations' % (type(e).__name__, str(e)[:120], loc))
+                w._qv_wrapped = True
+                return w
+            setattr(mod, name, mk(f, name))
+    mod.run(ctx)
 
 
 def write_replay(pid, key, payload):
